@@ -159,7 +159,8 @@ class error_html(object):
         @param ele_list: list of formatted elements
         @rtype: string
         """
-        return escape_html_chars(seg_id) + escape_html_chars(self.ele_term) + seg_str(
+        # A segment made of blanks only has no identifier
+        return escape_html_chars(seg_id or '') + escape_html_chars(self.ele_term) + seg_str(
             ele_list, escape_html_chars(self.seg_term), escape_html_chars(self.ele_term),
             escape_html_chars(self.subele_term), self.eol)
 
